@@ -50,18 +50,19 @@ func (s *ChunkStorage) StoreChunk(chunk *Chunk) (err error) {
 		return nil
 	}
 
-	// Skip this chunk if the store already has it
-	if hasChunk, err := s.ws.HasChunk(chunk.ID()); err != nil || hasChunk {
-		return err
-	}
-
-	// The chunk was marked as "processed" above. If there's a problem to actually
-	// store it, we need to unmark it again.
+	// The chunk was marked as "processed" above. If there's a problem to check for
+	// it or to actually store it, we need to unmark it again.
 	defer func() {
 		if err != nil {
 			s.unmarkProcessed(chunk.ID())
 		}
 	}()
+
+	// Skip this chunk if the store already has it
+	var hasChunk bool
+	if hasChunk, err = s.ws.HasChunk(chunk.ID()); err != nil || hasChunk {
+		return err
+	}
 
 	// Store the compressed chunk
 	return s.ws.StoreChunk(chunk)
